@@ -245,6 +245,20 @@ int main(int argc, char** argv)
                         case_dirs.insert(real);
                         op["dir"] = real;
                     }
+                    else if (d.rfind("@R/", 0) == 0)
+                    {
+                        // "@R/name": the same, but handed to the library as a path RELATIVE to the working directory
+                        // (the process moves into the scratch area first), the way a command-line tool run from the
+                        // parent folder of "Engine Library" opens it
+                        const char* w = getenv("VERIF_WORKDIR");
+                        std::string base = w ? w : "/dev/shm";
+                        if (chdir(base.c_str()) != 0) throw harness_error("cannot chdir to " + base);
+                        std::string rel = d.substr(3);
+                        std::error_code ec;
+                        std::filesystem::create_directories(base + "/" + rel, ec);
+                        case_dirs.insert(base + "/" + rel);
+                        op["dir"] = rel;
+                    }
                 }
                 json ret;
                 bool ok = dispatch_api(st, name, op, ret) || dispatch_codec(st, name, op, ret) ||
